@@ -1,6 +1,7 @@
 import NfcVerif.Model.Snep
 import NfcVerif.Model.Handover
 import NfcVerif.Model.SnepSched
+import NfcVerif.Model.SnepObj
 open NfcVerif NfcVerif.Chan
 
 /-! line protocol of the C06 model driver
@@ -17,6 +18,9 @@ open NfcVerif NfcVerif.Chan
   the same scenario on the windowed link, driven by the event string (x a r = transmit to /
   acknowledge by / application of the server, X A R the same for the client, o = the client
   application starts its next request); prints the state of the touched direction after every event
+* `hist <cacc> <sticky 0|1> <cmiu:smiu:maxacc>,... <op>...` one SnepClient object over its life time against the
+  listed services (first = default); `op` = `c<k>` connect to service k | `x` close | a request as for `snep`
+* `hohist <cmiu> <smiu> <reset> <op>...` one HandoverClient object; `op` = `c` | `x` | `<req hex>/<resp hex>`
 -/
 
 def hexList (l : List Bytes) : String :=
@@ -217,6 +221,87 @@ def runWHo (rwS rwC : Nat) (mode : AckMode) (events : List Char) (cmiu smiu : Na
   let (w, res, tr) := go (Net.onLink Handover.init) events reqs [] []
   s!"c2s={hexList w.logC} s2c={hexList w.logS} dl={hexList w.dl} res={",".intercalate res} ev={" ".intercalate tr}"
 
+
+/-! ### client objects over their life time -/
+
+def parseSvcs (s : String) : Option (List (Nat × Nat × Nat)) :=
+  (s.splitOn ",").mapM fun e =>
+    match e.splitOn ":" with
+    | [a, b, c] => match a.toNat?, b.toNat?, c.toNat? with
+      | some x, some y, some z => some (x, y, z)
+      | _, _, _ => none
+    | _ => none
+
+inductive HistTok
+  | connect (k : Nat)
+  | close
+  | req (o : SOp)
+
+def parseHistTok (s : String) : Option HistTok :=
+  if s == "x" then some .close
+  else if s.startsWith "c" then (s.drop 1).toString.toNat?.map .connect
+  else (parseOp s).map .req
+
+def showHRes : SnepObj.HRes → String
+  | .unit => "ok" | .refused => "refused" | .res r => showRes r
+
+def showSock (o : SnepObj.Obj) : String :=
+  match o.sock with
+  | none => "-"
+  | some c => toString c.svc
+
+def natList (l : List Nat) : String := if l.isEmpty then "." else ",".intercalate (l.map toString)
+
+def runHist (cacc : Nat) (sticky : Bool) (svcs : List (Nat × Nat × Nat)) (toks : List HistTok) : String :=
+  let defH : Snep.Handlers := { valid := fun _ => false, put := fun _ => 0x81, get := fun _ => .inl 0xE0 }
+  let world (h : Snep.Handlers) : SnepObj.World :=
+    svcs.map fun (cmiu, smiu, maxacc) => { cfg := { maxAcc := min maxacc 0xFFFFFFFF, smiu, h }, cmiu }
+  let rec go (o : SnepObj.Obj) (lastH : Snep.Handlers) (toks : List HistTok) (res socks : List String) :
+      SnepObj.Obj × List String × List String :=
+    match toks with
+    | [] => (o, res.reverse, socks.reverse)
+    | .connect k :: rest =>
+      let r := SnepObj.connect (world lastH) o k
+      go r.1 lastH rest (showHRes r.2 :: res) (s!"{showSock r.1}/{r.1.sent}" :: socks)
+    | .close :: rest =>
+      let o1 := SnepObj.close (world lastH) o
+      go o1 lastH rest ("ok" :: res) (s!"{showSock o1}/{o1.sent}" :: socks)
+    | .req q :: rest =>
+      let fuel := q.octets.length + (match q.h.get q.octets with | .inr d => d.length | .inl _ => 0) + 50
+      let r := SnepObj.request (world q.h) fuel sticky o q.op q.octets
+      go r.1 q.h rest (showHRes r.2 :: res) (s!"{showSock r.1}/{r.1.sent}" :: socks)
+  let (o, res, socks) := go { acc := cacc } defH toks [] []
+  let dl := if o.dl.isEmpty then "." else ",".intercalate (o.dl.map fun (k, op, d) =>
+    s!"{k}:" ++ (match op with | .put => "p:" | .get => "g:") ++ toHex d)
+  s!"res={",".intercalate res} dl={dl} sock={",".intercalate socks} opened={natList o.opened} closed={natList o.closed}"
+
+inductive HoTok
+  | connect | close
+  | req (m rsp : Bytes)
+
+def parseHoTok (s : String) : Option HoTok :=
+  if s == "c" then some .connect else if s == "x" then some .close
+  else (parseReq s).map fun (a, b) => .req a b
+
+def runHoHist (cmiu smiu : Nat) (reset : Bool) (toks : List HoTok) : String :=
+  let rec go (o : SnepObj.HObj) (toks : List HoTok) (res : List String) : SnepObj.HObj × List String :=
+    match toks with
+    | [] => (o, res.reverse)
+    | .connect :: rest =>
+      go (SnepObj.hhstep { smiu, complete := Handover.ndefComplete, handler := fun _ => [], reset } cmiu 0 o .connect).1 rest ("ok" :: res)
+    | .close :: rest =>
+      go (SnepObj.hhstep { smiu, complete := Handover.ndefComplete, handler := fun _ => [], reset } cmiu 0 o .close).1 rest ("ok" :: res)
+    | .req m rsp :: rest =>
+      let r := SnepObj.hhstep { smiu, complete := Handover.ndefComplete, handler := fun _ => rsp, reset } cmiu
+        (m.length + rsp.length + 50) o (.req m)
+      let shown := match r.2 with
+        | .res x => showOpt x
+        | .noSocket => "exc:AttributeError"
+        | .unit => "ok"
+      go r.1 rest (shown :: res)
+  let (o, res) := go {} toks []
+  s!"res={",".intercalate res} dl={hexList o.dl} opened={o.opened} orphaned={o.orphaned}"
+
 def handle (line : String) : String :=
   match line.splitOn " " with
   | "snep" :: a :: b :: c :: d :: cl :: ops =>
@@ -258,6 +343,14 @@ def handle (line : String) : String :=
     match rs.toNat?, rc.toNat?, a.toNat?, b.toNat?, reqs.mapM parseReq with
     | some rwS, some rwC, some cmiu, some smiu, some reqs => runWHo rwS rwC (modeOf md) ev.toList cmiu smiu (r == "1") reqs
     | _, _, _, _, _ => "bad-op"
+  | "hist" :: a :: st :: sv :: ops =>
+    match a.toNat?, parseSvcs sv, ops.mapM parseHistTok with
+    | some cacc, some svcs, some toks => runHist cacc (st == "1") svcs toks
+    | _, _, _ => "bad-op"
+  | "hohist" :: a :: b :: r :: ops =>
+    match a.toNat?, b.toNat?, ops.mapM parseHoTok with
+    | some cmiu, some smiu, some toks => runHoHist cmiu smiu (r == "1") toks
+    | _, _, _ => "bad-op"
   | ["chunks", m, h] => match m.toNat?, parseHex h with
     | some miu, some d => hexList (chunks miu d)
     | _, _ => "bad-op"
